@@ -2,6 +2,7 @@ package ischema
 
 import (
 	"fmt"
+	"sort"
 
 	"github.com/jsightapi/jsight-schema-core/bytes"
 	"github.com/jsightapi/jsight-schema-core/errs"
@@ -22,6 +23,18 @@ func New() ISchema {
 
 func (s ISchema) TypesList() map[string]Type {
 	return s.types
+}
+
+// TypeNames returns the names of all types in sorted order. Loops that can fail on
+// a type must use it instead of ranging over TypesList(): with several invalid
+// types the map order would decide which error the user gets.
+func (s ISchema) TypeNames() []string {
+	names := make([]string, 0, len(s.types))
+	for name := range s.types {
+		names = append(names, name)
+	}
+	sort.Strings(names)
+	return names
 }
 
 // MustType returns *ISchema or panic if not found.
